@@ -19,24 +19,44 @@ LEVEL = 'other'
 CHECKS = ('debug_check_pointer', 'debug_check_double_dealloc')
 
 # function -> (number of checks, state-changing call shorts / written fields)
+NODE = 'debug_fill_free($mem,this.node_size_,0)'
+CHUNK = 'this.find_chunk_impl(%s)' % NODE
+# function -> (number of checks, state-changing call shorts / written fields, expected check conditions over VALUES: locals are
+# replaced by what they hold at the check, parameters are named by position)
 LISTED = {
     ('detail::small_free_memory_list', 'deallocate', 1): dict(n=3, changes=('deallocate',), writes=('this.capacity_',),
-                                                             conds=[r'^local:chunk$|^\(local:chunk != null\)$|^local:chunk\b', r'^\(\(local:offset % this\.node_size_\) == 0\)$|^\(0 == \(local:offset % this\.node_size_\)\)$',
-                                                                    r'^!\(local:chunk\.contains\(local:node,this\.node_size_\)\)$']),
+                                                             conds=[{CHUNK, '(%s != null)' % CHUNK, '(null != %s)' % CHUNK},
+                                                                    {'(((%s - %s.list_memory()) %% this.node_size_) == 0)' % (NODE, CHUNK),
+                                                                     '(0 == ((%s - %s.list_memory()) %% this.node_size_))' % (NODE, CHUNK)},
+                                                                    {'!(%s.contains(%s,this.node_size_))' % (CHUNK, NODE)}]),
     ('static_block_allocator', 'deallocate_block', 1): dict(n=1, changes=(), writes=('this.cur_',), lifo='size'),
     ('virtual_block_allocator', 'deallocate_block', 1): dict(n=1, changes=('virtual_memory_decommit',), writes=('this.cur_',), lifo='block_size'),
     ('fixed_block_allocator', 'deallocate_block', 1): dict(n=1, changes=('deallocate_array',), writes=('this.block_size_',),
-                                                          conds=[r'^\(0 == this\.block_size_\)$|^\(this\.block_size_ == 0\)$|^!\(this\.block_size_\)$']),
+                                                          conds=[{'(0 == this.block_size_)', '(this.block_size_ == 0)', '!(this.block_size_)'}]),
 }
 
 
-def lambda_rets(db, lam_key, roles):
+def lambda_rets(db, lam_key, roles, vals=None):
+    """what the check lambda returns, with captured locals replaced by the values they hold at the check (vals) and captured
+    parameters of the enclosing function named by their roles"""
     lam = db.fns.get(lam_key)
     if lam is None:
         return None, None
-    cap_roles = {}
-    S = [s for s in fwd.summarize(lam, roles={}) if s.end == 'return']
+    S = [s for s in fwd.summarize(lam, roles=roles, init_vals=vals or {}, db=db) if s.end == 'return']
     return [s.ret for s in S], [s.ret_term for s in S]
+
+
+def checks_in_context(db, f, roles):
+    """(lambda key -> values of locals at the check call) from plain path traces"""
+    ctx = {}
+    for steps in fwd.trace(f, roles=roles, db=db):
+        for st in steps:
+            t = st.get('t') if st['kind'] == 'ev' else None
+            if isinstance(t, dict) and t.get('k') == 'call' and t.get('short') in CHECKS and t.get('args'):
+                lam = sym.strip_casts(t['args'][0])
+                if isinstance(lam, dict) and lam.get('k') == 'lambda':
+                    ctx.setdefault(lam.get('fn'), st['vals'])
+    return ctx
 
 
 def check_listed(run, db):
@@ -51,7 +71,9 @@ def check_listed(run, db):
             n += 1
             inst = '%s [%s]' % (f.display, db.config)
             site = {'function': '%s::%s' % (ct, short), 'role': 'checks precede state change'}
-            S = [s for s in fwd.summarize(f, db=db, roles={0: 'block'} if 'block' in short else {0: 'mem'}, no_forward=True) if s.end == 'return']
+            froles = {0: 'block'} if 'block' in short else {0: 'mem'}
+            S = [s for s in fwd.summarize(f, db=db, roles=froles, no_forward=True) if s.end == 'return']
+            ctx = checks_in_context(db, f, froles)
             probs = []
             lam_keys = []
             for s in S:
@@ -78,26 +100,26 @@ def check_listed(run, db):
             for k, callt in lam_keys:
                 if k in [x[0] for x in seen]:
                     continue
-                rets, terms = lambda_rets(db, k, {})
+                rets, terms = lambda_rets(db, k, froles, ctx.get(k))
                 seen.append((k, rets, terms, callt))
             cprobs = []
             if 'conds' in spec:
                 pats = list(spec['conds'])
                 for k, rets, terms, callt in seen:
                     r = rets[0] if rets and len(rets) == 1 else None
-                    hit = [p for p in pats if r is not None and re.search(p, r)]
+                    hit = [p for p in pats if r is not None and r in p]
                     if hit:
                         pats.remove(hit[0])
                     else:
                         cprobs.append('check condition `%s` is not one of the expected tests' % r)
                 if pats:
-                    cprobs.append('missing check(s): %s' % pats)
+                    cprobs.append('missing check(s): %s' % [sorted(p)[0] for p in pats])
             if 'lifo' in spec:
                 for k, rets, terms, callt in seen:
                     t = sym.strip_casts(terms[0]) if terms and len(terms) == 1 else None
                     okk = False
                     if isinstance(t, dict) and t.get('k') == 'bin' and t['op'] == '==':
-                        d = linear.sub(linear.lin(t['l']), linear.lin(t['r']))
+                        d = linear.sub(linear.lin(t['l'], froles), linear.lin(t['r'], froles))
                         want1 = {'$block.memory': 1, '$block.size': 1, 'this.cur_': -1}
                         want2 = {'$block.memory': 1, 'this.block_size_': 1, 'this.cur_': -1}
                         neg = lambda x: {a: -v for a, v in x.items()}
@@ -119,6 +141,8 @@ def check_listed(run, db):
     return n
 
 
+FIND_POS_ROLES = {0: 'info', 1: 'memory', 2: 'begin_node', 3: 'end_node', 4: 'last_dealloc', 5: 'last_dealloc_prev'}
+FIND_ITV_ROLES = {0: 'info', 1: 'memory', 2: 'first_prev', 3: 'first', 4: 'last', 5: 'last_next'}
 EXEMPT = [
     {'greater(xor_list_get_other($begin_node,null),$memory)'},
     {'less(xor_list_get_other($end_node,null),$memory)'},
@@ -136,7 +160,7 @@ def check_search(run, db):
         n += 1
         inst = '%s [%s]' % (f.display, db.config)
         probs = []
-        for s in fwd.summarize(f, roles={}, no_forward=True):
+        for s in fwd.summarize(f, roles=FIND_POS_ROLES, no_forward=True):
             if s.end != 'return':
                 continue
             if any('find_pos_interval' in c[0] for c in s.calls):
@@ -153,10 +177,13 @@ def check_search(run, db):
     for f in fpi:
         n += 1
         inst = '%s [%s]' % (f.display, db.config)
+        # values, not names: in the first iteration the forward cursor is `first`, the backward cursor is `last`
+        ctx = checks_in_context(db, f, FIND_ITV_ROLES)
         lams = [sym.strip_casts(t['args'][0]).get('fn') for e, t in flow.call_events(f) if t.get('short') == 'debug_check_double_dealloc' and t.get('args')]
-        rets = [lambda_rets(db, k, {})[0] for k in lams]
+        rets = [lambda_rets(db, k, FIND_ITV_ROLES, ctx.get(k))[0] for k in lams]
         flat = [r[0] if r and len(r) >= 1 else None for r in rets]
-        in_loop = [r for r in flat if r and '$memory != local:cur_forward' in r and '$memory != local:cur_backward' in r]
+        ne = lambda a: ('(%s != $memory)' % a, '($memory != %s)' % a)
+        in_loop = [r for r in flat if r and any(x in r for x in ne('$first')) and any(x in r for x in ne('$last')) and '&&' in r]
         off_end = [r for r in flat if r == 'false']
         probs = []
         if not in_loop:
@@ -164,9 +191,13 @@ def check_search(run, db):
         if not off_end:
             probs.append('running off the list is not reported')
         # the two early exits use strict comparisons
-        conds = {sym.canon(b['term']['cond']) for b in f.blocks.values() if b.get('term') and isinstance(b['term'].get('cond'), dict)}
-        if not any(c.startswith('greater(local:cur_forward,$memory)') for c in conds) or not any(c.startswith('less(local:cur_backward,$memory)') for c in conds):
-            probs.append('the early exits of the search are not the strict comparisons greater(cur_forward, memory) / less(cur_backward, memory): %s' % sorted(conds)[:3])
+        conds = set()
+        for steps in fwd.trace(f, roles=FIND_ITV_ROLES, db=db):
+            for st in steps:
+                if st['kind'] == 'br' and not st['assume']:
+                    conds.add(st['c'])
+        if 'greater($first,$memory)' not in conds or 'less($last,$memory)' not in conds:
+            probs.append('the early exits of the search are not the strict comparisons greater(forward cursor, memory) / less(backward cursor, memory): %s' % sorted(conds)[:3])
         if probs:
             run.violation('R-DBG.search', inst, f.loc, '; '.join(probs), site={'function': 'find_pos_interval', 'role': 'membership test in the search'})
         else:
